@@ -59,23 +59,23 @@ class CostSpec(cost_spec.CostSpec):
                 self.raw_number_comp = value
         elif isinstance(self.raw_cost, TotalCost) and value:
             if amount := self.raw_amount_comp:  # Amount(total) + Number(per) -> CompoundAmount
-                self._into_unit_cost(self.raw_cost)
                 compound_amount = CompoundAmount.from_children(
                     value,
                     copy.deepcopy(amount.raw_number),
                     copy.deepcopy(amount.raw_currency))
+                self._into_unit_cost(self.raw_cost)
                 self.raw_compound_amount_comp = compound_amount
                 self.raw_amount_comp = None
             elif currency := self.raw_currency_comp:  # Currency(total) + Number(per) -> Amount(per)
-                self._into_unit_cost(self.raw_cost)
                 amount = Amount.from_children(value, copy.deepcopy(currency))
+                self._into_unit_cost(self.raw_cost)
                 self.raw_amount_comp = amount
                 self.raw_currency_comp = None
             elif self.raw_number_comp:  # Number(total) + Number(per) -> error
                 raise ValueError('Cannot set both number_per and number_total without a currency.')
             else:  # /(total) + Number(per) -> Number(per)
-                self._into_unit_cost(self.raw_cost)
                 self.raw_number_comp = value
+                self._into_unit_cost(self.raw_cost)
 
     @internal.custom_property
     def raw_number_total(self) -> Optional[NumberExpr]:
@@ -112,15 +112,15 @@ class CostSpec(cost_spec.CostSpec):
                 self.raw_compound_amount_comp = compound_amount
                 self.raw_amount_comp = None
             elif currency := self.raw_currency_comp:  # Currency(per) + Number(total) -> Amount(total)
-                self._into_total_cost(self.raw_cost)
                 amount = Amount.from_children(value, copy.deepcopy(currency))
+                self._into_total_cost(self.raw_cost)
                 self.raw_amount_comp = amount
                 self.raw_currency_comp = None
             elif self.raw_number_comp:  # Number(per) + Number(total) -> error
                 raise ValueError('Cannot set both number_per and number_total without a currency.')
             else:  # /(per) + Number(total) -> Number(total)
-                self._into_total_cost(self.raw_cost)
                 self.raw_number_comp = value
+                self._into_total_cost(self.raw_cost)
 
     @internal.custom_property
     def raw_currency(self) -> Optional[Currency]:
